@@ -228,7 +228,7 @@ Proof.
   - destruct (insert_child_core _ _ _ _ _ _ C5 Hpar5 Hun5 Ec) as (_ & [=] & _).
 Qed.
 (* ---------- move_element_position ---------- *)
-Lemma Pres_move_position self mv pos : Pres (move_element_position self mv pos).
+Lemma Pres_move_position self mv pos e : Pres (move_element_position self mv pos e).
 Proof.
   intros w r w' H C. unfold move_element_position in H.
   assert (F : Core w /\ (NoOrphan w -> NoOrphan w)) by auto.
@@ -565,7 +565,7 @@ Proof.
   intros H C. unfold e_move_element_here_at in H. pose proof (move_post_refl h mv w r C) as F.
   destruct (h =? mv) eqn:Ehm; [winv H; apply move_post_refl; auto|]. apply N.eqb_neq in Ehm.
   wrun_ro H ltac:(first [exact F | apply move_post_refl; auto]).
-  - destruct (Pres_move_position _ _ _ _ _ _ H C) as (C' & O'). split; auto.
+  - destruct (Pres_move_position _ _ _ _ _ _ _ H C) as (C' & O'). split; auto.
   - match goal with Hq : (?p =? h) = false |- _ => apply N.eqb_neq in Hq end.
     match goal with Hq : parent_of _ w = Val (OK (Some _), w) |- _ => apply parent_of_some in Hq end.
     eapply move_local_post; eauto.
